@@ -12,7 +12,7 @@ USES_MTM = True
 RULE = ('EX engine (metamorphic): 12 estimator classes x real/complex x every lattice vector (short-record estimators) and every vector of the fixed families '
         'x EVERY admissible NFFT1 from the estimator minimum to 2N+3 x c in {2,3,4}: the PSD with NFFT=c*NFFT1 at index c*j equals the PSD with NFFT1 at index j '
         '(one-sided: every entry, Nyquist included), and the model parameters (ar, ma, rho, reflection, singular values, taper eigenvalues, weights at common '
-        'bins) are bit-identical; also through the NFFT setter of a live object. Distinct = digests of the NFFT1 estimate')
+        'bins) are identical (1e-12, i.e. rounding level); also through the NFFT setter of a live object. Distinct = digests of the NFFT1 estimate')
 ASSUMPTIONS = ['scale_by_freq is off', 'domain as in C03/C04 (well-posed problems)',
                "tolerance 1e-9 relative to the largest value; multitaper 'adapt': 2e-3 (its iteration stops on a global tolerance of 5e-4 times the data power per bin, so the number of iterations may depend on NFFT)"]
 
@@ -126,12 +126,12 @@ def eval_point(pt, R):
             v1, v2 = _get(o1, a_), _get(o2, a_)
             if v1 is None and v2 is None:
                 continue
-            same = v1 is not None and v2 is not None and v1.shape == v2.shape and np.array_equal(v1, v2)
+            same = v1 is not None and v2 is not None and v1.shape == v2.shape and close(v1, v2, 1e-12, 0.0)
             R.check(same, 'params', dict(feats, attr=a_), ptc, v2, v1, 'model parameter depends on NFFT')
         if cls == 'MultiTapering':
             w1, w2 = np.asarray(o1.weights), np.asarray(o2.weights)
             if not adapt:       # adaptive weights are per-frequency iterates, not model parameters (the property lists the tapers only)
-                R.check(np.array_equal(w1, w2), 'params', dict(feats, attr='weights'), ptc, w2, w1, 'multitaper weights depend on NFFT')
+                R.check(w1.shape == w2.shape and close(w1, w2, 1e-12, 0.0), 'params', dict(feats, attr='weights'), ptc, w2, w1, 'multitaper weights depend on NFFT')
     # live object: NFFT setter then read
     R.calls()
     try:
